@@ -1,9 +1,9 @@
 SPECIFICATION Spec
 CONSTANTS
-  Threads = {1, 2}
-  Seeds = {1, 2}
-  Shapes = {1, 2}
-  MaxCalls = 8
+  Threads = {1, 2, 3}
+  Seeds = {1, 2, 3}
+  Shapes = {1, 2, 3}
+  MaxCalls = 6
   FlipBits = 2
   InitClearsFlip = TRUE
   ThreadLocal = TRUE
